@@ -50,6 +50,9 @@ Sensitivity (quick tier, seed 1, scratch copy of /repo/tornado, one mutant at a 
      back-references beyond the smaller window / into the previous message)               -> C14.messages_received
      (systematic since the deterministic part `deflate_grid`: 2 reference-peer set-ups x 64 parameter combinations x 6
      far-back-referencing messages in both directions; before that the Hypothesis part caught it at some seeds only)
+  M10 control-frame length check off by one (`payloadlen >= 125`): a ping with the maximal legal payload of 125 bytes
+     aborts the connection                                                                -> C14.pongs / C14.connection_closed
+     (125-byte pings in the gaps and, since this round, 0/124/125-byte stand-alone pings)
   DESIGN's "reset the *compressor* each message despite takeover" is an equivalent mutant for this property
   (a persistent inflater decodes such a stream); the observable counterpart M3 (inflater) was used instead.
 """
@@ -124,7 +127,7 @@ op_s = st.one_of(
     st.tuples(st.just("in"), msg_s),
     st.tuples(st.just("out"), msg_s),
     st.tuples(st.just("out"), msg_s.map(lambda m: dict(m, content=("rep", 60, 1)))),   # shared content: context takeover matters
-    st.tuples(st.just("ping_in"), st.binary(max_size=8)),
+    st.tuples(st.just("ping_in"), st.binary(max_size=8) | st.sampled_from([b"", b"q" * 124, b"q" * 125])),   # 125 = largest legal control payload
     st.tuples(st.just("deliver"), st.booleans(), st.integers(1, 200)),
 )
 wbits_s = st.sampled_from([None, 9, 10, 11, 12, 13, 14, 15])
